@@ -30,7 +30,7 @@ class TimingMonitor(Monitor):
         self.last_tx[k] = t
 
     def post_recv(self, conn, hdr, datagram, pre, result):
-        if result:
+        if result is True:
             cn = self.w.conn_name(conn)
             self.last_accept[cn] = self.w.k.now
             self.first_accept.setdefault(cn, self.w.k.now)
